@@ -15,4 +15,5 @@ INVARIANT RehierarchExact
 INVARIANT LevelAddDropRoundTrip
 INVARIANT SearchSortedBrackets
 INVARIANT SearchSortedPointwise
+INVARIANT LabelWidthsCoverRows
 CHECK_DEADLOCK FALSE
